@@ -8,8 +8,10 @@ EdgeAssemblyChanger and per branch of it); this module binds it to the real code
 2. spec -> code: the graph TLC explores from a family of loading patterns is printed edge by edge with the observation of
    every state; walks of real convert / restorePreviousGeometry / addEdgeAssemblies / removeEdgeAssemblies /
    scaleParamsRelatedToSymmetry calls (and `solve`: assignment of every valued volume-integrated parameter, standing for the
-   flux solve between adding the edge assemblies and scaling) on
-   generated third cores (harness/gen_core.py assemblies, random block parameters) take every edge at least once and compare,
+   flux solve between adding the edge assemblies and scaling; `editCopy`: a client pushes an unregistered block into a
+   temporary copy while the core is full) on
+   generated third cores (harness/gen_core.py assemblies, random block parameters, ONE array object assigned to every
+   block as a volume-integrated parameter, two zones) take every edge at least once and compare,
    after EVERY call, the complete projection (cells, which original each assembly is / copies, rotation, symmetry factor,
    reported mass and volume fractions, stored parameter scales, every other parameter and the block contents unchanged,
    childrenByLocator / assembliesByName / blocksByName / string-location lookups, name uniqueness, object sharing) and the
@@ -38,7 +40,7 @@ MODDIR = os.path.join(common.SPEC, "core")
 MOD = "SymmetryConversion_mc"
 TRACE = "SymmetryConversion_trace"
 ACTIONS = ("Convert", "ConvertAlreadyFull", "Restore", "RestoreNothing", "AddEdges", "AddEdgesAlreadyThere",
-           "AddEdgesFullCore", "RemoveEdges", "RemoveEdgesFullCore", "ScaleParams", "ScaleParamsNothing", "Solve")
+           "AddEdgesFullCore", "RemoveEdges", "RemoveEdgesFullCore", "ScaleParams", "ScaleParamsNothing", "Solve", "EditCopy")
 
 # tolerances (constants of the adapter)
 RTOL_RATIO = 1e-9   # a measured ratio (stored / built value, reported / full volume ...) is one division of two doubles that
@@ -52,6 +54,10 @@ LETTERS = ("GF", "F", "GFP")   # block stacks of the generated assemblies, by or
 VI_SCALARS = ("power", "massHmBOL", "kgHM", "powerGenerated")
 VI_VECTOR = "mgFlux"
 VI_LIST = "adjMgFlux"
+# ONE array object created by the harness and assigned (no copying setter) to every block of every assembly, the way a client
+# hands a uniform flux guess to all blocks: the converters must never modify it in place (Obs.inputsIntact)
+VI_ALIASED = "lastMgFlux"
+ZONES = ("A", "B")              # two zones, by parity of the original's index (ZoneOfOrigin in the specification)
 OTHER_SET = ("pdens", "buRate")
 # scalar fluxes: as built until scaleParamsRelatedToSymmetry recomputes them from the combined multigroup fluxes (Obs.fx);
 # they are observed through fx and left out of "every other parameter is unchanged"
@@ -90,6 +96,12 @@ def _same(x, y):
         return bool(np.array_equal(ax, ay))
     except Exception:
         return repr(x) == repr(y)
+
+
+def np_equal(x, y):
+    import numpy as np
+
+    return np.array_equal(x, y)
 
 
 def _is_nonzero_number(v):
@@ -152,14 +164,14 @@ def _snap_params(obj):
     return out
 
 
-def _owned_ids(a):
-    """identities of everything an assembly is expected to own exclusively"""
+def _owned_ids(a, not_owned=()):
+    """identities of everything an assembly is expected to own exclusively (not_owned: objects the harness itself shares)"""
     import numpy as np
 
     ids = {}
 
     def add(o, what):
-        if o is not None:
+        if o is not None and id(o) not in not_owned:
             ids[id(o)] = what
 
     def params(o, what):
@@ -248,6 +260,16 @@ class CoreAdapter:
                 for n in OTHER_SET + FX_SET:
                     b.p[n] = rng.uniform(0.5, 2.0)
                 b.p[TAG] = float(o) + k / 16.0
+        w.alias = np.array([3.0e11, 5.0e11, 7.0e11])
+        w.alias0 = w.alias.copy()
+        for a in w.orig.values():
+            for b in a:
+                b.p[VI_ALIASED] = w.alias
+        from armi.reactor import zones as zonesmod
+
+        for z, name in enumerate(ZONES, start=1):
+            locs = [a.getLocation() for o, a in w.orig.items() if (1 if o % 2 == 1 else 2) == z]
+            w.core.zones.addZone(zonesmod.Zone(name, locs))
         w.nucs = sorted({n for m in w.M0.values() for n in m})
         w.P0 = {o: [_snap_params(b) for b in a] for o, a in w.orig.items()}
         w.PA0 = {o: _snap_params(a) for o, a in w.orig.items()}
@@ -301,10 +323,23 @@ class CoreAdapter:
             self.gc.EdgeAssemblyChanger.scaleParamsRelatedToSymmetry(w.core)
         elif n == "solve":
             self.solve(w, a["ps"])
+        elif n == "editCopy":
+            self.edit_copy(w)
         else:
             raise AssertionError("unknown call " + n)
         self.note_names(w)
         return ""
+
+    def edit_copy(self, w):
+        """a client edits a temporary copy while the core is full: a new bottom block (a renamed deep copy of the present one)
+        is pushed into the copy that sits in the smallest cell; the core is not told"""
+        import copy
+
+        copies = sorted((a for a in w.core if id(a) not in w.oid), key=lambda a: (int(a.spatialLocator.i), int(a.spatialLocator.j)))
+        a = copies[0]
+        nb = copy.deepcopy(a[0])
+        nb.name = "Bextra-%s" % a.getName()
+        a.insert(0, nb)
 
     def solve(self, w, scales):
         """Stands for the flux solve: ASSIGN every valued volume-integrated parameter of every block (built value times the
@@ -317,8 +352,9 @@ class CoreAdapter:
         for a, (num, den) in zip(kids, scales):
             o = self.origin_of(w, a)
             f = num / den
+            shift = len(a) - len(w.P0[o])           # 1 for a copy that carries an extra bottom block (editCopy)
             for k, b in enumerate(a):
-                p0 = w.P0[o][k]
+                p0 = w.P0[o][max(k - shift, 0)]
                 for name, old in p0.items():
                     if name in w.vi and _is_nonzero_number(old):
                         if isinstance(old, list):
@@ -368,6 +404,11 @@ class CoreAdapter:
             if m0 > 0.0:
                 vq.append(float(a.getMass(nuc or None)) / m0)
         blocks = list(a)
+        if len(blocks) == len(w.P0[o]) + 1:
+            # projection rule (Obs.ed): an assembly with one block more than its origin is "edited"; its quantities are not
+            # projected; the scalar fluxes of the blocks it shares with the origin still are
+            fx = all(_same(b.p[n], w.P0[o][k][n]) for k, b in enumerate(blocks[1:]) for n in FX_SET)
+            return [0, 0], [0, 0], [0, 0], fx
         if len(blocks) != len(w.P0[o]):
             return {"blocks": len(blocks)}, {"blocks": len(blocks)}, {"blocks": len(blocks)}, None
         ps, changed = [], []
@@ -448,20 +489,25 @@ class CoreAdapter:
             sf = sfs.pop() if len(sfs) == 1 else {"blocksDiffer": sorted(sfs)}
             if o < 1:
                 asm.append({"o": o, "orig": False, "rot": self.rot_of(a), "sf": sf, "vq": None, "vqv": None, "ps": None, "fx": None,
-                            "other": None})
+                            "other": None, "zone": None, "ed": None})
             else:
                 vq, ps, other, fx = self.measure(w, a, o)
                 # projection rule (see Obs.vqv in the specification): the volume of an original assembly on the 120-degree
                 # line is not projected
-                if id(a) in w.oid and cell_class(cell_of(a)) == "line120":
+                ed = len(a) == len(w.P0[o]) + 1
+                zone = core.zones.findZoneItIsIn(a)
+                zone = 0 if zone is None else (ZONES.index(zone.name) + 1 if zone.name in ZONES else zone.name)
+                if ed:
+                    vqv = [0, 0]
+                elif id(a) in w.oid and cell_class(cell_of(a)) == "line120":
                     vqv = [0, 0]
                     vol_ok = False
                 else:
                     vqv = _as_rational([float(a.getVolume()) / w.V0[o]])
                 asm.append({"o": o, "orig": id(a) in w.oid, "rot": self.rot_of(a),
                             "sf": int(sf) if isinstance(sf, float) and sf == int(sf) else sf, "vq": vq, "vqv": vqv, "ps": ps,
-                            "fx": fx, "other": other})
-            owned.append(_owned_ids(a))
+                            "fx": fx, "other": other, "zone": zone, "ed": ed})
+            owned.append(_owned_ids(a, not_owned=(id(w.alias),)))
         shared = 0
         notes = []
         seen = {}
@@ -503,7 +549,8 @@ class CoreAdapter:
         return {
             "sym": symname, "mult": core.powerMultiplier, "cells": cells, "asm": asm, "byLoc": by_loc, "where": where,
             "nameFinds": name_finds, "blkFinds": blk_finds, "staleNames": stale_names, "staleBlks": len(stale_owner),
-            "count": len(core), "parOk": all(x["ps"] != [0, 0] for x in asm), "pool": self.pool_size(w) - w.pool0, "shared": shared, "namesUnique": len(set(names)) == len(names) and len(set(bnames)) == len(bnames),
+            "count": len(core), "zoneCounts": [len(core.getAssemblies(zones=[z])) for z in ZONES],
+            "totOk": not any(x.get("ed") for x in asm), "inputsIntact": bool(np_equal(w.alias, w.alias0)), "parOk": all(x["ps"] != [0, 0] or x.get("ed") for x in asm), "pool": self.pool_size(w) - w.pool0, "shared": shared, "namesUnique": len(set(names)) == len(names) and len(set(bnames)) == len(bnames),
             "origNamesKept": kept, "freshNames": bool(w.fresh_ok), "volOk": vol_ok, "notes": notes + w.last_notes,
         }
 
@@ -523,6 +570,8 @@ class CoreAdapter:
 
     def check_totals(self, w, obs, measured=None):
         """the measured totals against the linear forms whose exact rational coefficients the specification printed"""
+        if not obs["d"].get("totOk", True):
+            return None     # an edited copy (one block more than its source) is in the core: totals are not comparable
         got = measured if measured is not None else self.measure_totals(w)
         vol = [Fraction(n, d) for n, d in obs["vol"]]
         par = [Fraction(n, d) for n, d in obs["par"]]
@@ -745,7 +794,8 @@ def cover(graph, ad, obs_of, max_walk, max_calls):
 CALLS = [{"n": "convert", "kept": False}, {"n": "restore", "kept": False}, {"n": "addEdges", "kept": True},
          {"n": "addEdges", "kept": False}, {"n": "removeEdges", "kept": True}, {"n": "removeEdges", "kept": False},
          {"n": "scaleParams", "kept": False}, {"n": "scaleParams", "kept": False},
-         {"n": "solve", "kept": False, "mode": "physical"}, {"n": "solve", "kept": False, "mode": "asis"}]
+         {"n": "solve", "kept": False, "mode": "physical"}, {"n": "solve", "kept": False, "mode": "asis"},
+         {"n": "editCopy", "kept": False}]
 
 
 def random_pattern(rng, dom):
@@ -773,6 +823,8 @@ def drive(ad, w, calls, tid, pat, with_totals):
         a = dict(a)
         if a["n"] == "scaleParams" and (last["sym"] != "third" or last["count"] == 0):
             continue      # the call is meant for a (non-empty) third core that carries its edge assemblies: precondition I6
+        if a["n"] == "editCopy" and (last["sym"] != "full" or all(x["orig"] for x in last["asm"]) or any(x["ed"] for x in last["asm"])):
+            continue      # only a temporary copy of a full core is edited, and only once (precondition of the action)
         if a["n"] == "solve" and "ps" not in a:
             # the values a driver writes are inputs, logged with the event: either what a solver would write for the part of
             # each assembly that is modelled now (built factor / current factor, both as measured), or the present values again
@@ -825,7 +877,7 @@ def check_side_totals(rep, ad, res, side, prefix):
         k = p["at"] - 1
         if k >= len(totals):
             continue
-        obs = {"vol": p["vol"], "par": p["par"], "full": p["full"], "d": {"mult": p["mult"], "volOk": p["volOk"], "parOk": p["parOk"]}}
+        obs = {"vol": p["vol"], "par": p["par"], "full": p["full"], "d": {"mult": p["mult"], "volOk": p["volOk"], "parOk": p["parOk"], "totOk": p["totOk"]}}
         d = ad.check_totals(w, obs, measured=totals[k])
         n += 1
         if d:
@@ -1202,6 +1254,7 @@ def mutants():
     from armi.reactor import assemblies, blocks, cores
     from armi.reactor.converters import geometryConverters as gc
     from armi.reactor.grids import hexagonal
+    from armi.reactor.parameters import ParamLocation
     from harness.selftest import patched as P
 
     T = gc.ThirdCoreHexToFullCoreChanger
@@ -1222,6 +1275,33 @@ def mutants():
 
     fake_copy_1 = types.SimpleNamespace(deepcopy=deepcopy_sharing_material, copy=copymod.copy)
     fake_copy_2 = types.SimpleNamespace(deepcopy=deepcopy_sharing_params, copy=copymod.copy)
+
+    def remove_aux_hoisted(self, assembly):
+        del self.assembliesByName[assembly.getName()]
+        try:
+            for b in assembly:
+                del self.blocksByName[b.getName()]
+        except KeyError:
+            pass
+
+    def scale_arrays_in_place(self, oldSymmetryFactor):
+        import numpy as np
+
+        f = oldSymmetryFactor / self.getSymmetryFactor()
+        if f == 1:
+            return
+        for b in self:
+            for pd in self[0].p.paramDefs.atLocation(ParamLocation.VOLUME_INTEGRATED):
+                v = b.p[pd.name]
+                if v is None or isinstance(v, str):
+                    continue
+                if isinstance(v, np.ndarray):
+                    v *= f                       # in place: every block that shares the array object is scaled again
+                    b.p[pd.name] = v
+                elif isinstance(v, list):
+                    b.p[pd.name] = [x * f for x in v]
+                else:
+                    b.p[pd.name] = v * f
 
     def scale_all_params(self, oldSymmetryFactor):
         f = oldSymmetryFactor / self.getSymmetryFactor()
@@ -1250,6 +1330,10 @@ def mutants():
         ("convert / addEdges copies share the top block's parameters with the source", lambda: P(gc, "copy", fake_copy_2)),
         ("convert leaves the edge assemblies in (no removeEdgeAssemblies first)",
          S(T, "convert", "edgeChanger.removeEdgeAssemblies(self._sourceReactor.core)", "pass")),
+        ("the centre's arrays are scaled in place (imul / itruediv): shared array objects are scaled once per block",
+         S(T, "_scaleBlockVolIntegratedParams", [("op = operator.mul", "op = operator.imul"), ("op = operator.truediv", "op = operator.itruediv")])),
+        ("convert registers the SOURCE's location in the zone instead of the copy's",
+         S(T, "convert", "thisZone.addLoc(newAssem.getLocation())", "thisZone.addLoc(a.getLocation())")),
         ("list-valued parameters of the centre are not scaled",
          S(T, "_scaleBlockVolIntegratedParams", "b.p[param] = [op(val, 3) for val in b.p[param]]", "pass")),
         # -- restore ----------------------------------------------------------------------------------------
@@ -1262,6 +1346,8 @@ def mutants():
         ("restore divides the centre by 2", S(T, "_scaleBlockVolIntegratedParams", "op = operator.truediv", "op = lambda v, n: v / 2")),
         # -- core bookkeeping ---------------------------------------------------------------------------------
         ("removeAssembly leaves the names in the lookup tables", lambda: P(cores.Core, "_removeListFromAuxiliaries", lambda self, a: None)),
+        ("removeAssembly stops forgetting block names at the first block the core does not know",
+         lambda: P(cores.Core, "_removeListFromAuxiliaries", remove_aux_hoisted)),
         ("removeAssembly keeps the location entry",
          S(cores.Core, "removeAssembly", "self.childrenByLocator.pop(a1.spatialLocator)", "self.childrenByLocator.get(a1.spatialLocator)")),
         ("Core.add does not register the blocks by name",
@@ -1276,6 +1362,7 @@ def mutants():
          S(blocks.HexBlock, "getSymmetryFactor", "grids.BOUNDARY_120_DEGREES,", "")),
         ("moveTo does not rescale the parameters of an edge copy",
          lambda: P(assemblies.Assembly, "scaleParamsToNewSymmetryFactor", lambda self, old: None)),
+        ("moveTo rescales array parameters in place", lambda: P(assemblies.Assembly, "scaleParamsToNewSymmetryFactor", scale_arrays_in_place)),
         ("moveTo rescales parameters that are not volume integrated", lambda: P(assemblies.Assembly, "scaleParamsToNewSymmetryFactor", scale_all_params)),
         # -- edge assemblies ------------------------------------------------------------------------------------
         ("addEdgeAssemblies does not clear the caches of the 0-degree line (stale areas)",
